@@ -199,6 +199,10 @@ def oracle(sc: Scenario, run: ctl.Run, props):
             if timeouts_possible:
                 allowed.add("TimeoutError")
             if raised not in allowed:
+                if clean:
+                    bad.append(("C01", "unexpected-exception:" + re.sub(r"\d+", "N", raised), dict(call=cno, raised=raised)))
+                    if sc.ra != 0:
+                        bad.append(("C16", "unexpected-exception:" + re.sub(r"\d+", "N", raised), dict(call=cno, raised=raised)))
                 bad.append(("C04", pre + "wrong-exception:" + re.sub(r"\d+", "N", raised), dict(call=cno, raised=raised, allowed=sorted(allowed))))
             # partial results delivered before the failure must still be right (generator modes)
         if sc.ra == 1 and yields != ids[: len(yields)]:
@@ -444,17 +448,28 @@ def run_prop(ctx, prop, focuses):
         out.rule = "replay of a native-thread probe case (repeated 5 times: OS scheduling)"
         m1_threads.probe(ctx, out, {prop}, 5, cases=[ctx.replay["case"]] * 5)
         return out
+    if ctx.replay and ctx.replay.get("case", {}).get("instr"):
+        sc = Scenario.from_json(ctx.replay["case"])
+        out = Result()
+        out.rule = "replay of a bytecode-level pre-emption scenario"
+        r = ctl.run_scenario(sc)
+        out.evaluations = 1
+        for p, sig, detail in oracle(sc, r, {prop}) + [x for x in promptness_oracle(sc, r) if x[0] == prop]:
+            out.fail(sig, sc.to_json(), dict(detail=detail, fired=r.instr_fired, log=" | ".join(r.log)[:1500]))
+        return out
     if ctx.replay:
         sc = Scenario.from_json(ctx.replay["case"])
         return explore(ctx, {prop}, 1, "replay", scenarios=[sc])
     if ctx.thorough:
         out = explore_sharded(ctx, {prop}, 60000, "thorough", focuses)
+        instr_sweep(ctx, out, {prop}, 10**9)
         if prop in ("C01", "C04", "C09"):
             from . import m1_threads
             m1_threads.probe(ctx, out, {prop}, 80)
         return out
     rs = [explore(ctx, {prop}, 2400 // len(focuses), f"quick-{f}", f) for f in focuses]
     out = merge(rs)
+    instr_sweep(ctx, out, {prop}, 150)
     if prop in ("C01", "C04", "C09"):
         from . import m1_threads
         m1_threads.probe(ctx, out, {prop}, 12)
@@ -463,3 +478,45 @@ def run_prop(ctx, prop, focuses):
 
 def search_prop(ctx, prop, res, focuses):
     return explore_sharded(ctx, {prop}, 30000, "search", focuses)
+
+
+# ------------------------------------------------------------------ bytecode-level pre-emption sweep (oracle only)
+
+SWEEP_BASES = [
+    Scenario(nj=2, bs_auto=False, bs=(1,), pd=1, ra=1, calls=(Call(2),)),
+    Scenario(nj=2, bs_auto=False, bs=(1,), pd=2, ra=0, calls=(Call(5),)),
+    Scenario(nj=2, bs_auto=False, bs=(1,), pd=1, ra=0, calls=(Call(3, fail=(1,)), Call(2))),
+    Scenario(nj=3, bs_auto=False, bs=(2,), pd=3, ra=2, calls=(Call(9),)),
+    Scenario(nj=2, bs_auto=True, bs=(1, 2), pd_mode=1, ra=1, calls=(Call(4, cons=(1, 2)), Call(3))),
+    Scenario(nj=2, bs_auto=False, bs=(1,), pd=2, ra=1, timeout=3, abort_drops=False, calls=(Call(4, iterfail=3), Call(2))),
+    Scenario(nj=3, bs_auto=False, bs=(1,), pd=1, ra=0, calls=(Call(6),)),
+    Scenario(nj=2, bs_auto=False, bs=(1,), pd=2, ra=2, managed=True, calls=(Call(4, cons=(1, 3)), Call(3, cons=()))),
+]
+
+
+def instr_sweep(ctx, res, props, per_base):
+    """Every (sampled) bytecode of the caller inside joblib/parallel.py as a pre-emption point at which parked batches
+    complete (all of them / the oldest one).  Finer than the Lean model: judged by the oracles only."""
+    import dataclasses
+    rng = ctx.rng("instr")
+    for bi, base in enumerate(SWEEP_BASES):
+        try:
+            total = ctl.count_instructions(base)
+        except Exception as e:  # noqa: BLE001
+            res.fail("harness-run-crashed:" + type(e).__name__, base.to_json(), repr(e))
+            continue
+        ks = list(range(total)) if total <= per_base else sorted(rng.sample(range(total), per_base))
+        res.count(f"instr-sweep-base{bi}-points", len(ks))
+        for k in ks:
+            for how in (-1, 0):
+                sc = dataclasses.replace(base, instr=((k, how),))
+                try:
+                    r = ctl.run_scenario(sc)
+                except Exception as e:  # noqa: BLE001
+                    res.fail("harness-run-crashed:" + type(e).__name__, sc.to_json(), repr(e))
+                    continue
+                res.evaluations += 1
+                if r.instr_fired:
+                    res.nontrivial.add(("instr", bi, k, how))
+                for p, sig, detail in oracle(sc, r, props) + [x for x in promptness_oracle(sc, r) if x[0] in props]:
+                    res.fail(sig, sc.to_json(), dict(detail=detail, fired=r.instr_fired, log=" | ".join(r.log)[:1500]))
